@@ -22,6 +22,7 @@ pub struct EntityDeletion {
     pub alias: Option<String>,
     pub id_param: String,
     pub references: Vec<ReferenceDeletion>,
+    pub enable_full_text: bool,
 }
 impl Default for EntityDeletion {
     fn default() -> Self {
@@ -36,6 +37,7 @@ impl EntityDeletion {
             alias: None,
             id_param: "".to_string(),
             references: Vec::new(),
+            enable_full_text: true,
         }
     }
 }
@@ -126,6 +128,7 @@ impl DeletionParser {
         let model_entity = data_model.get_entity(entity_name)?;
         entity.name = entity_name.to_string();
         entity.short_name = model_entity.short_name.clone();
+        entity.enable_full_text = model_entity.enable_full_text;
 
         for entity_pair in entity_pairs {
             match entity_pair.as_rule() {
